@@ -72,10 +72,13 @@ EXTENDED_COMMUNITY_TARGET_PARTS = 2  # Target extended community has 2 parts (AS
 
 def prefix(tokeniser: 'Tokeniser') -> IPRange:
     ip = tokeniser()
-    try:
-        ip, mask_str = ip.split('/')
+    if '/' in ip:
+        ip, mask_str = ip.split('/', 1)
+        # only a missing mask means a host route: a mask which is not a number is an error
+        if not mask_str.isascii() or not mask_str.isdigit():
+            raise ValueError(f"'{ip}/{mask_str}' is not a valid prefix\n  invalid netmask '{mask_str}'")
         mask = int(mask_str)
-    except ValueError:
+    else:
         mask = 32
         if ':' in ip:
             mask = 128
